@@ -96,7 +96,7 @@ def uses(x):
 
 POSITIONS = [
     "arg", "arg2", "ret", "yield", "dictval", "dictkey", "list", "tuple", "set", "method", "static", "classm", "receiver",
-    "caller_local", "global_scan", "global_namesake", "prop_ret", "uses", "program_swaps_profiler",
+    "caller_local", "global_scan", "global_namesake", "prop_ret", "uses", "program_swaps_profiler", "instance_attr_namesake",
 ]
 FAULT_SITES = ["log1", "log2", "log3", "flush"]
 
@@ -159,6 +159,11 @@ def scenario(M, T, kind: str, pos: str) -> Callable[[], Any]:
             return type(k.p).__name__
         if pos == "uses":
             return M.uses(obj)
+        if pos == "instance_attr_namesake":
+            # the receiver's instance dict holds the tripwire under the name of the method that is running
+            k = M.K()
+            k.__dict__["m"] = obj
+            return M.K.m(k, 1)
         if pos == "program_swaps_profiler":
             # the program installs and removes its own profiler inside the traced block
             import sys as _sys
